@@ -302,7 +302,7 @@ def distance(s1, s2, only_ub=False, **kwargs):
     if s.adj_max_length_diff is not None and abs(r - c) > s.adj_max_length_diff:
         return inf
     if only_ub:
-        return ival_fn(ub_euclidean(s1, s2, inner_dist=s.inner_dist, use_ndim=s.use_ndim))
+        return ub_euclidean(s1, s2, inner_dist=s.inner_dist, use_ndim=s.use_ndim)
 
     psi_1b, psi_1e, psi_2b, psi_2e = s.split_psi()
     length = min(c + 1, abs(r - c) + 2 * (s.window - 1) + 1 + 1 + 1)
